@@ -236,6 +236,74 @@ def make_psy_multi(info, dm, ann, history):
     return text, invoke.name
 
 
+def alg_source_chain(calls, actuals):
+    '''Algorithm layer with one invoke of several built-ins; calls =
+    [(built-in, [actual names])], actuals = all their argument records.'''
+    seen, decl = {}, []
+    for a in actuals:
+        key = (a["kind"], a["ty"])
+        if seen.setdefault(a["name"], key) != key:
+            raise core.MachineryError("chain uses %s with two types" % a["name"])
+    for nm, (kind, ty) in seen.items():
+        if kind == "field":
+            decl.append(("type(field_type)" if ty == "r" else "type(integer_field_type)")
+                        + " :: " + nm)
+        else:
+            decl.append(("real(r_def)" if ty == "r" else "integer(i_def)") + " :: " + nm)
+    src = ["program chain_invoke",
+           "  use constants_mod, only: r_def, i_def",
+           "  use field_mod, only: field_type",
+           "  use integer_field_mod, only: integer_field_type",
+           "  implicit none"]
+    src += ["  " + d for d in decl]
+    body = [f"{cap}({', '.join(args)})" for cap, args in calls]
+    src += ["  call invoke( " + ", &\n               ".join(body) + " )",
+            "end program chain_invoke", ""]
+    return "\n".join(src)
+
+
+def make_psy_chain(info, dm, ann, variant, nbuiltins):
+    '''PSy layer of an invoke of several built-ins.  plain; ompl = an OMP
+    PARALLEL DO per loop; omp2/omp2r = an OMP DO per loop (reprod off/on) and
+    ONE OMP PARALLEL region around all of them.'''
+    from psyclone.psyGen import PSyFactory
+    from psyclone.configuration import Config
+    from psyclone.domain.lfric import LFRicLoop
+    from psyclone.domain.lfric.lfric_builtins import LFRicBuiltIn
+    from psyclone.psyir.nodes import OMPDoDirective
+    from psyclone.psyir.transformations import TransformationError
+    from psyclone.transformations import (DynamoOMPParallelLoopTrans,
+                                          OMPParallelTrans, Dynamo0p3OMPLoopTrans)
+    Config.get().api_conf("lfric")._compute_annexed_dofs = bool(ann)
+    try:
+        psy = PSyFactory("dynamo0.3", distributed_memory=bool(dm)).create(info)
+        invoke = psy.invokes.invoke_list[0]
+        sched = invoke.schedule
+        loops = sched.walk(LFRicLoop)
+        if len(sched.walk(LFRicBuiltIn)) != nbuiltins or len(loops) != nbuiltins:
+            raise Unsupported("invoke is not %d built-in loops" % nbuiltins)
+        try:
+            if variant == "ompl":
+                for loop in loops:
+                    DynamoOMPParallelLoopTrans().apply(loop)
+            elif variant in ("omp2", "omp2r"):
+                for loop in loops:
+                    Dynamo0p3OMPLoopTrans().apply(loop, {"reprod": variant == "omp2r"})
+                dirs = sched.walk(OMPDoDirective)
+                if any(d.parent is not sched for d in dirs):
+                    raise Unsupported("work-sharing directive below the schedule root")
+                first, last = dirs[0].position, dirs[-1].position
+                OMPParallelTrans().apply(sched.children[first:last + 1])
+            elif variant != "plain":
+                raise ValueError(variant)
+        except TransformationError as err:
+            raise Refused(str(err.value)[:200])
+        text = str(psy.gen)
+    finally:
+        Config.get().api_conf("lfric")._compute_annexed_dofs = False
+    return text, invoke.name
+
+
 class Refused(Exception):
     '''A transformation of a history refused: no product to judge.'''
 
@@ -300,9 +368,11 @@ def _names(text):
 
 _RE_DIR = [
     (re.compile(r"^!\$omp parallel do default\(shared\), private\(([\w,]+)\), "
+                r"(?:firstprivate\((?P<fp>[\w,]+)\), )?"
                 r"schedule\(static\)(?:, reduction\(\+:(\w+)\))?$"), "pdo"),
     (re.compile(r"^!\$omp end parallel do$"), "endpdo"),
-    (re.compile(r"^!\$omp parallel default\(shared\), private\(([\w,]+)\)$"), "par"),
+    (re.compile(r"^!\$omp parallel default\(shared\), private\(([\w,]+)\)"
+                r"(?:, firstprivate\((?P<fp>[\w,]+)\))?$"), "par"),
     (re.compile(r"^!\$omp end parallel$"), "endpar"),
     (re.compile(r"^!\$omp do schedule\(static\)(?:, reduction\(\+:(\w+)\))?$"), "do"),
     (re.compile(r"^!\$omp end do$"), "enddo"),
@@ -437,8 +507,9 @@ def itemise(text, invoke_name, bfields=None):
                     rec = {"d": key}
                     if key in ("pdo", "par"):
                         rec["private"] = m.group(1).split(",")
+                        rec["firstprivate"] = m.group("fp").split(",") if m.group("fp") else []
                     if key == "pdo":
-                        rec["red"] = [m.group(2)] if m.group(2) else []
+                        rec["red"] = [m.group(3)] if m.group(3) else []
                     if key == "do":
                         rec["red"] = [m.group(1)] if m.group(1) else []
                     it.dirs.append(rec)
@@ -637,8 +708,8 @@ def _structure(stmts, dirs):
             i += 1
         elif d["d"] == "pdo":
             loop = take_loop(stmts, i, "endpdo")
-            out.append({"k": "ompparalleldo", "private": d["private"], "red": d["red"],
-                        "loop": loop})
+            out.append({"k": "ompparalleldo", "private": d["private"],
+                        "firstprivate": d["firstprivate"], "red": d["red"], "loop": loop})
             i += 3
         elif d["d"] == "par":
             try:
@@ -660,7 +731,8 @@ def _structure(stmts, dirs):
                     j += 3
                 else:
                     raise Unsupported("directive %s in a parallel region" % dj["d"])
-            out.append({"k": "ompparallel", "private": d["private"], "body": body})
+            out.append({"k": "ompparallel", "private": d["private"],
+                        "firstprivate": d["firstprivate"], "body": body})
             i = e + 1
         else:
             raise Unsupported("unbalanced directive " + d["d"])
@@ -678,9 +750,15 @@ def export(it, undf, nthreads):
         raise Unsupported("frontend: %s: %s" % (type(err).__name__, str(err)[:200]))
     routine = psyir.walk(Routine)[0]
     exp = Exporter(hooks={"Call": _call_hook})
+    # the only imported symbols of the synthetic routine are kind parameters,
+    # which occur as `kind=` arguments of INT/REAL (dropped by the exporter:
+    # exact arithmetic); the exporter refuses imports it has no type for
+    exp.import_types = {k: "i" for k in it.kinds | {"r_def", "i_def"}}
     stmts = exp.body(routine)
     if exp.subs:
         raise Unsupported("call to a subroutine")
+    if "::" in repr(stmts):
+        raise Unsupported("kind parameter used as a value")
     prog = _structure(stmts, it.dirs)
     decls = []
     for n, ty in it.data.items():
